@@ -542,6 +542,42 @@ where
             }
         }
     }
+    // a LONG SESSION on one selector value (1 scenario in ~4000): 3000 further selections from the same
+    // population; every single one must be a member or an allowed error (cumulative effects, leaked counters)
+    if v.is_empty() && spec.seed % 4001 == 7 && pop.len() <= 64 {
+        obs.hit("probe.long-session-on-one-selector-value");
+        let bad = catch(|| {
+            let node = build::<R>(sel);
+            for i in 0..3000u32 {
+                match node.select(&pop, &mut rng) {
+                    Ok(r) => {
+                        if !pop.iter().any(|x| std::ptr::eq(x, r)) {
+                            return Some(format!("selection #{i} returned a reference that is not an element of the population"));
+                        }
+                    }
+                    Err(HErr(kind)) => {
+                        if !expected.contains(&kind) {
+                            return Some(format!("selection #{i} reported {kind:?}; allowed: {expected:?}"));
+                        }
+                    }
+                }
+            }
+            None
+        });
+        match bad {
+            Ok(None) => {}
+            Ok(Some(msg)) => v.push(Violation::new(
+                "returns-member-of-population",
+                "long-session".to_string(),
+                format!("{}: in a session of 3000 selections on one selector value, {msg}", cfg()),
+            )),
+            Err(p) => v.push(Violation::new(
+                "never-panics",
+                format!("panic:long-session:{}", p.site),
+                format!("{}: in a session of 3000 selections on one selector value: panicked: {}", cfg(), p.message),
+            )),
+        }
+    }
     if pop.len() >= 2 {
         let mut fp = fnv1a(format!("{sel:?}").as_bytes());
         for r in rows {
